@@ -100,16 +100,28 @@ def classifyBlock (specs : List Spec) (y : Out) (g : List (Res (CV × BT))) : St
       if c != "-" then c else go (i + 1) st' rs' gs'
     | _ :: st', none :: rs', _ :: gs' => go (i + 1) st' rs' gs'
     | _, _, _ => "block-interplay"
+  /- every class label of the block, spec by spec -/
+  let rec labels (i : Nat) (st : List Stage) (rs : List (Option (Option BT × CExpr)))
+      (gs : List (Res (CV × BT))) : List String :=
+    match st, rs, gs with
+    | s :: st', some (t, e) :: rs', g1 :: gs' =>
+      Class.classifyDecl factsX .const i t e (combineY [s]) g1 :: labels (i + 1) st' rs' gs'
+    | _ :: st', none :: rs', _ :: gs' => labels (i + 1) st' rs' gs'
+    | _, _, _ => []
   let ys := showOut y
   let gs := showOut (outGo g)
   if ys == gs then "-"
   else if ys == "reject|crash" && gs == "reject" then
     -- rejected by the first walk and by Go: in the domain, unless some spec is one on which a walk panics
-    (let c := go 0 stages resolved g
-     if c == "bool-shift-panic" || c == "node-panic" then c else "-")
-  else match y with
-    | .unm w => "unmodelled:" ++ w
-    | _ => go 0 stages resolved g
+    (match (labels 0 stages resolved g).find? (fun c => c == "bool-shift-panic" || c == "node-panic") with
+     | some c => c
+     | none => "-")
+  else
+    let c := go 0 stages resolved g
+    if c != "block-interplay" then c
+    else match y with
+      | .unm w => "unmodelled:" ++ w
+      | _ => c
 
 def parseType (s : Sexp) : Option (Option BT) :=
   match s with
